@@ -254,6 +254,12 @@ def r14_3(ctx):
     for n in walk_own(fr.node):
         if isinstance(n, ast.Assign) and isinstance(n.value, ast.Call) and fr.callee(n.value) == 'self._absorb':
             absorbs[ast.unparse(n.value.args[0])] = ast.unparse(n.targets[0]).replace(' ', '').strip('()')
+        elif isinstance(n, ast.Assign) and isinstance(n.value, ast.Subscript) and isinstance(n.value.value, ast.Call) \
+                and fr.callee(n.value.value) == 'self._absorb' and isinstance(n.value.slice, ast.Constant) and \
+                n.value.slice.value in (0, 1) and n.value.value.args:
+            # start = self._absorb(b)[0]  is  start, _ = self._absorb(b)
+            t = ast.unparse(n.targets[0])
+            absorbs[ast.unparse(n.value.value.args[0])] = (t + ',_') if n.value.slice.value == 0 else ('_,' + t)
     pv = probes.get('_stop_to_block', (None, None, None))[2]
     nx = probes.get('_start_to_block', (None, None, None))[2]
     ok = pv in absorbs and absorbs[pv].startswith('start,') and not absorbs[pv].endswith(',stop')
